@@ -523,12 +523,16 @@ class MultiScaling(object):
 
     def get_dtype(self, raw_data_type, scaler_data_types):
         """ Get the numpy dtype for scaled data
+
+        :param raw_data_type: Type of the raw channel data, as a numpy dtype or a TDMS type
         """
         final_scale = len(self.scalings) - 1
         return self._compute_scale_dtype(final_scale, raw_data_type, scaler_data_types)
 
     def _compute_scale_dtype(self, scale_index, raw_data_type, scaler_data_types):
         if scale_index == RAW_DATA_INPUT_SOURCE:
+            if isinstance(raw_data_type, np.dtype):
+                return raw_data_type
             return raw_data_type.nptype
         scaling = self.scalings[scale_index]
         if isinstance(scaling, DaqMxScalerScaling):
